@@ -95,6 +95,24 @@ class Refuse(Exception):
     """the item is outside the translated subset (reported, never approximated)"""
 
 
+class NotFound(Refuse):
+    """a function that is not defined in the translated files at all (a stale target)"""
+
+
+def qualify(text, used, mods):
+    """write `<module>.X` as `Chrono.Gen.<module>.X` for every module that is also the name of a local variable of
+    the function (Lean would read `datetime.DateTime_Utc` as a projection of the local `datetime`)"""
+    hit = [m for m in mods if m in used]
+    if not hit:
+        return text
+    return re.sub(r"(?<![\w.])(" + "|".join(sorted(hit)) + r")\.(?=[A-Za-z_])", r"Chrono.Gen.\1.", text)
+
+
+def lean_ident(name):
+    """`DateTime<Utc>` -> `DateTime_Utc` (the Lean name of an instantiated generic struct)"""
+    return name.replace("<", "_").replace(", ", "_").replace(">", "")
+
+
 # ------------------------------------------------------------------------------------------------ lexer
 class Tok:
     __slots__ = ("k", "v", "suf", "pos")
@@ -243,8 +261,10 @@ ASSIGN_OPS = {"=", "+=", "-=", "*=", "/=", "%=", "<<=", ">>=", "&=", "|=", "^="}
 
 
 class Parser:
-    def __init__(self, toks, i=0):
+    def __init__(self, toks, i=0, tparams=()):
         self.t, self.i = toks, i
+        self.tparams = set(tparams)      # names of the type parameters in scope (generic impl / generic struct)
+        self.half = None                 # index of a `>>` token whose first `>` has been consumed
 
     # -- token helpers
     def peek(self, o=0):
@@ -354,8 +374,12 @@ class Parser:
                         args.append(self.parse_type())
                     if not self.eat(","):
                         break
-                if self.at(">>"):      # split `>>`
-                    self.t[self.i] = Tok("p", ">", self.peek().pos)
+                if self.at(">>"):      # split `>>` (the token list is shared between readings: not modified)
+                    if self.half == self.i:
+                        self.half = None
+                        self.i += 1
+                    else:
+                        self.half = self.i
                 else:
                     self.expect(">")
                 break
@@ -370,10 +394,17 @@ class Parser:
             return ("bool",)
         if name == "Option" and len(args) == 1:
             return ("opt", args[0])
+        if name == "Self" and len(segs) == 1:
+            return ("self",)
+        if len(segs) == 1 and name in self.tparams and not args:
+            return ("tparam", name)
+        if len(segs) == 2 and not args and (segs[0] == "Self" or segs[0] in self.tparams):
+            # an associated type of the impl type / of a type parameter: `Self::Offset`, `Tz::Offset`
+            return ("assoc", ("self",) if segs[0] == "Self" else ("tparam", segs[0]), name)
         if name == "Self":
             return ("self",)
         if args:
-            return ("unk", "::".join(segs) + "<…>")
+            return ("gen", name, tuple(args), "::".join(segs) + "<…>")
         return ("adt", name)
 
     # -- patterns
@@ -738,6 +769,8 @@ class FnItem:
         self.mod, self.owner, self.trait, self.name = mod, owner, trait, name
         self.toks, self.sig_i, self.generic, self.rel = toks, sig_i, generic, rel
         self.parsed = None
+        self.tsubst = {}       # type parameter of the enclosing generic impl -> the concrete type it is read at
+        self.gimpl = None      # header of the enclosing generic impl (see Crate.impl_header)
 
     def rust_path(self):
         o = self.owner or ""
@@ -747,11 +780,15 @@ class FnItem:
             o = self.trait
         return (o + "::" if o else "") + self.name
 
-    def parse(self):
+    def parse_sig(self):
+        """the signature only (also of a bodiless trait method declaration) -> (params, has_self, return type)"""
+        return self.parse(sig_only=True)
+
+    def parse(self, sig_only=False):
         """-> (params [(pattern, type)], has_self, return type, body block)"""
         if self.parsed:
-            return self.parsed
-        p = Parser(self.toks, self.sig_i)
+            return self.parsed[:3] if sig_only else self.parsed
+        p = Parser(self.toks, self.sig_i, self.tsubst)
         p.expect("(")
         params, has_self = [], False
         while not p.at(")"):
@@ -782,6 +819,8 @@ class FnItem:
         ret = ("unit",)
         if p.eat("->"):
             ret = p.parse_type()
+        if sig_only:
+            return (params, has_self, ret)
         if p.at("where"):
             raise Refuse("where clause")
         if not p.at("{"):
@@ -815,13 +854,74 @@ class Crate:
         self.consts = {}    # (mod, owner|None, name) -> (type, expr node, rel)
         self.adts = {}      # name -> dict(kind=…, mod=…)
         self.files = {}
+        self.gadts = {}     # generic struct: name -> dict(tparams=[…], fields=[(name, type)], mod=…)
+        self.gfns = {}      # (base type name, trait|None, fn name) -> [FnItem] of impls with a generic header
+        self.assoc = {}     # (impl type, associated type name) -> type   (`type Offset = Utc;` in an impl)
+        self.impls = []     # (trait, type) of every non-generic `impl Trait for Type`
+        self.traits = set() # names of the traits declared in the translated files
+        self.decls = {}     # (trait, fn name) -> [FnItem] of the bodiless method declarations of a trait
 
     def scan_file(self, rel, mod, src):
         toks = lex(src)
         self.files[rel] = mod
         self.scan_items(Parser(toks), rel, mod, None, None, top=True)
 
-    def scan_items(self, p, rel, mod, owner, trait, top=False):
+    @staticmethod
+    def generic_params(p):
+        """at `<`: skips the generic parameter list and returns the names of its TYPE parameters (lifetimes and
+        const parameters are not type parameters; bounds are skipped: rustc has checked them)"""
+        j = p.i
+        p.skip_generics()
+        names, depth, paren, want = [], 0, 0, False
+        for x in p.t[j:p.i]:
+            if x.k == "p" and x.v in "([{":
+                paren += 1
+            elif x.k == "p" and x.v in ")]}":
+                paren -= 1
+            elif paren:
+                continue
+            elif x.k == "p" and x.v == "<":
+                depth += 1
+                want = depth == 1
+            elif x.k == "p" and x.v in (">", ">>"):
+                depth -= len(x.v)
+            elif x.k == "p" and x.v == "," and depth == 1:
+                want = True
+            elif want:
+                if x.k == "id" and x.v != "const":
+                    names.append(x.v)
+                want = False
+        return names
+
+    @staticmethod
+    def impl_header(toks, tparams):
+        """the header `[Trait for] Type` of an impl with generics in it -> dict(base, args, tname, targs, tparams)
+        or None when it is not of the form `Name<types…>` / `Name`"""
+        q = Parser(list(toks) + [Tok("eof", "", 0)], 0, tparams)
+
+        def named(t):
+            if t[0] == "adt":
+                return t[1], ()
+            if t[0] == "gen":
+                return t[1], t[2]
+            return None
+        try:
+            if q.at("!"):
+                return None
+            t1 = q.parse_type()
+            tr_ = None
+            if q.eat("for"):
+                tr_, t1 = t1, q.parse_type()
+            if not (q.peek().k == "eof" or q.at("where")):
+                return None
+        except Refuse:
+            return None
+        a, b = named(t1), (named(tr_) if tr_ is not None else (None, ()))
+        if a is None or b is None:
+            return None
+        return dict(base=a[0], args=a[1], tname=b[0], targs=b[1], tparams=list(tparams))
+
+    def scan_items(self, p, rel, mod, owner, trait, top=False, gimpl=None):
         while True:
             x = p.peek()
             if x.k == "eof":
@@ -858,6 +958,7 @@ class Crate:
                     generic = True
                     p.skip_generics()
                 item = FnItem(mod, owner, trait, name, p.t, p.i, generic, rel)
+                item.gimpl = gimpl
                 while not (p.at("{") or p.at(";")):
                     if p.peek().k == "eof":
                         raise Refuse(f"{rel}: fn {name}: no body")
@@ -869,7 +970,11 @@ class Crate:
                     p.skip_balanced()
                     if not cfg and "async" not in quals:
                         self.fns.setdefault((owner, trait, name), []).append(item)
+                        if gimpl is not None:
+                            self.gfns.setdefault((gimpl["base"], gimpl["tname"], name), []).append(item)
                 else:
+                    if not cfg and owner is None and trait is not None:
+                        self.decls.setdefault((trait, name), []).append(item)
                     p.i += 1
                 continue
             if (p.at("const") or p.at("static")) and p.peek(1).k == "id":
@@ -907,9 +1012,13 @@ class Crate:
                 p.i += 1
                 name = p.ident()
                 generic = False
+                gparams = []
                 if p.at("<"):
                     generic = True
-                    p.skip_generics()
+                    gparams = self.generic_params(p)
+                    p.tparams = set(gparams)
+                    while not (p.at("{") or p.at("(") or p.at(";") or p.peek().k == "eof"):
+                        p.i += 1          # a `where` clause
                 info = None
                 if p.at("("):
                     j = p.i
@@ -963,8 +1072,11 @@ class Crate:
                     while not p.at(";"):
                         p.i += 1
                     p.i += 1
-                    info = dict(kind="opaque", why="unit struct")
+                    info = dict(kind="unit")
+                p.tparams = set()
                 if generic:
+                    if info["kind"] == "struct" and not cfg:
+                        self.gadts[name] = dict(tparams=gparams, fields=info["fields"], mod=mod)
                     info = dict(kind="opaque", why="generic struct")
                 if not cfg:
                     info["mod"] = mod
@@ -1011,8 +1123,9 @@ class Crate:
             if p.at("impl") or p.at("trait"):
                 is_trait = p.at("trait")
                 p.i += 1
+                iparams = []
                 if p.at("<"):
-                    p.skip_generics()
+                    iparams = self.generic_params(p)
                 j = p.i
                 while not p.at("{"):
                     if p.peek().k == "eof":
@@ -1030,6 +1143,8 @@ class Crate:
                 own, trt, generic_hdr = None, None, any(t.k == "p" and t.v == "<" for t in hdr)
                 if is_trait:
                     trt = words[0] if words else None
+                    if trt and not cfg:
+                        self.traits.add(trt)
                 elif "for" in words:
                     k = words.index("for")
                     lhs = [w for w in words[:k] if isinstance(w, str) and re.match(r"[A-Za-z_]\w*$", w)]
@@ -1041,13 +1156,29 @@ class Crate:
                 else:
                     ids = [w for w in words if isinstance(w, str) and re.match(r"[A-Za-z_]\w*$", w)]
                     own = ids[-1] if ids and not generic_hdr else "<generic impl>"
+                gi = None
+                if not is_trait and generic_hdr:
+                    gi = self.impl_header(hdr, iparams)
+                if not is_trait and not generic_hdr and not cfg and own and trt:
+                    self.impls.append((trt, own))
                 p.i += 1
                 if cfg:
                     p.i -= 1
                     p.skip_balanced()
                 else:
-                    self.scan_items(p, rel, mod, own, trt)
+                    self.scan_items(p, rel, mod, own, trt, gimpl=gi)
                 continue
+            if p.at("type") and p.peek(1).k == "id" and p.at("=", 2) and owner and not owner.startswith("<") \
+                    and not cfg:
+                save = p.i
+                p.i += 3
+                try:
+                    ty = p.parse_type()
+                    if p.at(";"):
+                        self.assoc[(owner, p.t[save + 1].v)] = ty
+                except Refuse:
+                    pass
+                p.i = save          # skipped below like any other item
             if p.at("mod"):
                 p.i += 1
                 name = p.ident()
@@ -1170,6 +1301,8 @@ def show_type(t):
         return "[" + show_type(t[1]) + "]"
     if t[0] == "tv":
         return "{integer}"
+    if t[0] == "gen":
+        return t[3]
     return t[0] if len(t) == 1 else t[0] + ":" + str(t[1])
 
 
@@ -1186,6 +1319,8 @@ class FnFront:
     # -- type helpers
     def norm(self, t):
         """resolve `Self`, references, arrays-by-reference; reject what is outside the subset"""
+        if t[0] in ("tparam", "assoc", "gen"):
+            t = self.gen.subst_type(t, self.item.tsubst, self.item.owner)
         if t[0] == "self":
             if not self.item.owner or self.item.owner.startswith("<"):
                 raise Refuse("`Self` without a concrete impl type")
@@ -1198,8 +1333,6 @@ class FnFront:
             return ("tuple", tuple(self.norm(x) for x in t[1]))
         if t[0] == "array":
             return ("array", self.norm(t[1]), None)
-        if t[0] == "unk":
-            raise Refuse(f"type `{t[1]}` is outside the subset")
         if t[0] == "adt":
             a = self.crate.adts.get(t[1])
             if a is None:
@@ -1231,6 +1364,15 @@ class FnFront:
                 if fn_ == name:
                     return self.norm(ft)
         raise Refuse(f"no field `{name}` in {t[1]}")
+
+    def generic_by_expectation(self, base, exp, what):
+        """`DateTime { … }` / `DateTime::f(…)` without type arguments: the instantiation is the one of the expected
+        type (the declared result / `let` type the expression flows into; the caller unifies the result with that
+        type afterwards, so a wrong guess is a refusal, never a different reading)"""
+        x = self.T.res(exp)
+        if x is not None and x[0] == "adt" and self.crate.adts.get(x[1], {}).get("gbase") == base:
+            return x[1]
+        raise Refuse(f"{what} of the generic type `{base}` where the instantiation is not given by the expected type")
 
     # -- constants
     def find_const(self, segs):
@@ -1342,6 +1484,9 @@ class FnFront:
                             e.res = ("variant", d)
                             return ("adt", en)
                     raise Refuse(f"unknown variant {en}::{segs[-1]}")
+            if len(segs) == 1 and self.crate.adts.get(segs[0], {}).get("kind") == "unit":
+                e.res = ("unit",)
+                return ("adt", segs[0])
             if segs[-1] in EXTRACTED_TABLES and len(segs) == 1:
                 c = self.gen.const_decl(self.item.mod, segs[-1])
                 if c is not None:
@@ -1431,6 +1576,8 @@ class FnFront:
             return self.field_type(self.infer(e.e, env), e.name)
         if k == "slit":
             name = self.item.owner if e.path[-1] == "Self" else e.path[-1]
+            if name in self.crate.gadts:
+                name = self.generic_by_expectation(name, exp, "struct literal")
             t = self.norm(("adt", name))
             a = self.adt(t)
             if a["kind"] != "struct":
@@ -1643,7 +1790,47 @@ class FnFront:
             owner = self.item.owner if segs[-2] == "Self" else segs[-2]
             if owner in INT_TYPES or owner in NONZERO:
                 raise Refuse(f"`{owner}::{name}` is outside the subset")
-            item = self.gen.resolve_fn(owner, name, self.item)
+            if owner in self.crate.traits and owner not in self.crate.adts:
+                return self.infer_trait_call(e, env, exp, owner, name)
+            if owner in self.item.tsubst:                      # `Tz::from_offset(…)` read at the instantiation
+                if self.item.tsubst[owner][0] != "adt":
+                    raise Refuse(f"`{owner}::{name}` on a type parameter bound to a non-struct type")
+                owner = self.item.tsubst[owner][1]
+                item = self.gen.resolve_fn(owner, name, self.item, via_param=True)
+            else:
+                if owner in self.crate.gadts:
+                    owner = self.generic_by_expectation(owner, exp, f"call `{owner}::{name}`")
+                item = self.gen.resolve_fn(owner, name, self.item)
+        info = self.gen.fn_info(item)
+        if len(info.params) != len(e.args):
+            raise Refuse(f"call of {item.rust_path()}: argument count")
+        for (pn, pt), a_ in zip(info.params, e.args):
+            T.unify(self.infer(a_, env, pt), pt, f"(argument `{pn}` of {item.rust_path()})")
+        e.res = ("fn", info)
+        return info.ret
+
+    def infer_trait_call(self, e, env, exp, trait, name):
+        """`Trait::f(args)`: the impl is chosen by `Self`, which is read off the first argument when `f` has a
+        receiver and off the expected type when `f` returns `Self` (`TimeZone::from_offset(&off)` flowing into a
+        value of type `Tz`); anything else is refused"""
+        T = self.T
+        decl = self.crate.fns.get((None, trait, name), []) + self.crate.decls.get((trait, name), [])
+        if len(decl) != 1:
+            raise Refuse(f"`{trait}::{name}`: no unique declaration in the trait")
+        d = FnItem(decl[0].mod, None, trait, name, decl[0].toks, decl[0].sig_i, decl[0].generic, decl[0].rel)
+        params, has_self, ret = d.parse_sig()
+        selft = None
+        if has_self:
+            if not e.args:
+                raise Refuse(f"`{trait}::{name}` without a receiver argument")
+            selft = T.res(self.infer(e.args[0], env))
+        elif ret == ("self",):
+            selft = T.res(exp)
+        if selft is None or selft[0] != "adt":
+            raise Refuse(f"`{trait}::{name}`: the implementing type is not evident from the call")
+        item = self.gen.resolve_fn(selft[1], name, self.item, via_param=True)
+        if item.trait != trait:
+            raise Refuse(f"`{trait}::{name}` at {selft[1]} resolves to a function that is not the trait's")
         info = self.gen.fn_info(item)
         if len(info.params) != len(e.args):
             raise Refuse(f"call of {item.rust_path()}: argument count")
@@ -1683,6 +1870,9 @@ class FnFront:
                 e.res = ("isopt", name == "is_some")
                 return BOOL
             if name == "unwrap" and not e.args:
+                e.res = ("unwrap",)
+                return tr_[1]
+            if name == "expect" and len(e.args) == 1 and e.args[0].k == "str":
                 e.res = ("unwrap",)
                 return tr_[1]
             if name == "unwrap_or" and len(e.args) == 1:
@@ -1831,7 +2021,10 @@ class FnTrans:
         return "none" if self.pure else ".ok none"
 
     def lean_type(self, t):
-        return self.gen.lean_type(t)
+        return qualify(self.gen.lean_type(t), self.used, self.gen.mods)
+
+    def mk(self, name):
+        return qualify(self.gen.struct_name(name), self.used, self.gen.mods) + ".mk"
 
     def is_struct(self, t):
         return t is not None and t[0] == "adt" and self.gen.repr_kind(t) == "struct"
@@ -2031,6 +2224,8 @@ class FnTrans:
                 return k(V(env[e.segs[0]][0]))
             if r[0] == "none":
                 return k(V("none"))
+            if r[0] == "unit":
+                return k(V("()"))
             if r[0] == "variant":
                 return k(vlit(r[1]))
             if r[0] == "const":
@@ -2170,7 +2365,7 @@ class FnTrans:
                                 else V(f"{b.emb(100)}.{f}", 100)
                 elif len(order) == 1:
                     return k(vs[0])
-                return k(V(f"{self.gen.struct_name(t[1])}.mk " + " ".join(by[f].emb(100) for f in order), 90))
+                return k(V(f"{self.mk(t[1])} " + " ".join(by[f].emb(100) for f in order), 90))
             return self.tr_list([fe for _, fe in e.fields] + ([e.base] if e.base is not None else []), env, ks)
         if kd == "block":
             return self.tr_block(e, env, k, hint)
@@ -2229,7 +2424,7 @@ class FnTrans:
             x = d[f]
             parts.append(lit_text(x) if isinstance(x, int) else
                          self.const_struct(x, self.gen.norm_type(ft, t[1])).emb(100))
-        return V(f"{self.gen.struct_name(t[1])}.mk " + " ".join(parts), 90, cval=d)
+        return V(f"{self.mk(t[1])} " + " ".join(parts), 90, cval=d)
 
     def match_opt(self, v, name, ksome, none_code):
         return self.match_opt_full(v, name, ksome, none_code)
@@ -2626,7 +2821,9 @@ class Gen:
         self.infos = {}        # id(item) -> FnInfo | Refuse | "busy"
         self.order = []        # FnInfo in dependency order
         self.structs = []      # names of emitted structures
+        self.struct_adt = {}   # emitted structure name -> key in crate.adts
         self.cache = {}
+        self.mods = sorted(set(crate.files.values()))
 
     # -- names of the run-time vocabulary
     def ck_name(self, t):
@@ -2651,15 +2848,119 @@ class Gen:
             return "enum"
         if a["kind"] == "struct":
             return "single" if len(a["fields"]) == 1 else "struct"
+        if a["kind"] == "unit":
+            return "unit"
         raise Refuse(f"type {t[1]} is outside the subset")
 
     def struct_name(self, name):
         a = self.crate.adts[name]
-        full = f"{a['mod']}.{name}"
+        full = f"{a['mod']}.{lean_ident(name)}"
         if full not in self.structs:
             self.structs.append(full)
+            self.struct_adt[full] = name
             a["emit_index"] = len(self.order)
         return full
+
+    # -- generic impls read at a concrete instantiation
+    def subst_type(self, t, subst, owner):
+        """a parsed type with the type parameters (`Tz`), `Self`, associated types (`Tz::Offset`: the `type Offset = …`
+        item of the impl for the concrete type) and generic structs (`DateTime<Tz>`) resolved"""
+        k = t[0]
+        if k == "tparam":
+            if t[1] not in subst:
+                raise Refuse(f"type parameter `{t[1]}` is not bound to a concrete type")
+            return subst[t[1]]
+        if k == "self":
+            if not owner or owner.startswith("<"):
+                raise Refuse("`Self` without a concrete impl type")
+            return ("adt", owner)
+        if k == "assoc":
+            b = self.subst_type(t[1], subst, owner)
+            if b[0] != "adt" or (b[1], t[2]) not in self.crate.assoc:
+                raise Refuse(f"associated type `{show_type(b)}::{t[2]}` is not defined in the translated files")
+            return self.subst_type(self.crate.assoc[(b[1], t[2])], {}, b[1])
+        if k == "gen":
+            return self.instantiate_adt(t[1], [self.subst_type(a, subst, owner) for a in t[2]], t[3])
+        if k == "opt":
+            return ("opt", self.subst_type(t[1], subst, owner))
+        if k == "tuple":
+            return ("tuple", tuple(self.subst_type(x, subst, owner) for x in t[1]))
+        if k == "array":
+            return ("array", self.subst_type(t[1], subst, owner), t[2])
+        return t
+
+    def instantiate_adt(self, name, args, txt=None):
+        """`Name<args>` for a generic struct of the translated files: a struct of its own (key `Name<A, …>`, Lean
+        name `Name_A_…`) whose field types are the declared ones with the parameters replaced"""
+        g = self.crate.gadts.get(name)
+        if g is None or len(g["tparams"]) != len(args):
+            raise Refuse(f"type `{txt or name + '<…>'}` is outside the subset")
+        for a in args:
+            if a[0] != "adt":
+                raise Refuse(f"type `{txt or name + '<…>'}`: a type argument that is not a named type")
+        key = name + "<" + ", ".join(a[1] for a in args) + ">"
+        if key not in self.crate.adts:
+            self.crate.adts[key] = dict(kind="opaque", why="recursive instantiation", mod=g["mod"])
+            try:
+                sub = dict(zip(g["tparams"], args))
+                fields = [(f, self.subst_type(ft, sub, None)) for f, ft in g["fields"]]
+            except Refuse:
+                del self.crate.adts[key]
+                raise
+            self.crate.adts[key] = dict(kind="struct", fields=fields, mod=g["mod"], gbase=name, gargs=tuple(args))
+        return ("adt", key)
+
+    @staticmethod
+    def match_impl(gimpl, gargs):
+        """does `impl<P…> Base<args>` cover `Base<gargs>`?  -> the binding of the impl's parameters, or None"""
+        if gimpl is None or len(gimpl["args"]) != len(gargs):
+            return None
+        bind = {}
+        for ia, ga in zip(gimpl["args"], gargs):
+            if ia[0] == "tparam":
+                if bind.get(ia[1], ga) != ga:
+                    return None
+                bind[ia[1]] = ga
+            elif ia != ga:
+                return None
+        if set(gimpl["tparams"]) - set(bind):
+            return None
+        return bind
+
+    def resolve_gfn(self, owner, name):
+        """function `name` of the instantiated generic struct `owner`: the impls `impl<…> Base<…>` whose header
+        covers the instantiation; inherent impls before trait impls (Rust's method lookup order)"""
+        a = self.crate.adts[owner]
+        hits = []
+        for (b, tname, n), items in self.crate.gfns.items():
+            if b == a["gbase"] and n == name:
+                for it in items:
+                    bind = self.match_impl(it.gimpl, a["gargs"])
+                    if bind is not None:
+                        hits.append((it, bind, tname))
+        pick = [h for h in hits if h[2] is None] or hits
+        if not pick:
+            raise NotFound(f"`{owner}::{name}` is not defined in the translated files")
+        if len(pick) > 1:
+            raise Refuse(f"`{owner}::{name}` has several definitions (cfg variants / overlapping impls)")
+        it, bind, tname = pick[0]
+        key = ("inst", id(it), owner)
+        if key not in self.cache:
+            ni = FnItem(it.mod, owner, tname, it.name, it.toks, it.sig_i, it.generic, it.rel)
+            ni.tsubst = bind
+            self.cache[key] = ni
+        return self.cache[key]
+
+    def param_images(self, ctx):
+        """the concrete types a value of a parametric type (`Tz`, `Tz::Offset`, `Self` of a trait default method)
+        can have inside `ctx`"""
+        ts = {t[1] for t in getattr(ctx, "tsubst", {}).values() if t[0] == "adt"}
+        if getattr(ctx, "default_of", None):
+            ts.add(ctx.owner)
+        for (o, _n), ty in list(self.crate.assoc.items()):
+            if o in ts and ty[0] == "adt":
+                ts.add(ty[1])
+        return ts
 
     def norm_type(self, t, owner):
         if t[0] == "self":
@@ -2694,6 +2995,8 @@ class Gen:
             a = self.crate.adts[t[1]]
             if kind == "enum":
                 return "Int"
+            if kind == "unit":
+                return "Unit"
             if kind == "newtype":
                 return self.lean_type(self.norm_type(a["field"], t[1]))
             if kind == "single":
@@ -2741,7 +3044,7 @@ class Gen:
         self.cache[key] = "busy"
         try:
             ty = self.norm_type(ty, downer)
-            if ty[0] == "array" or ty[0] == "unk":
+            if ty[0] in ("array", "gen", "tparam", "assoc"):
                 raise Refuse(f"constant `{name}` has a type outside the subset")
             if e is None:
                 raise Refuse(f"constant `{name}`: initialiser outside the subset")
@@ -2883,7 +3186,7 @@ class Gen:
     def self_type(self, item):
         return ("adt", item.owner)
 
-    def resolve_fn(self, owner, name, ctx, method=False):
+    def resolve_fn(self, owner, name, ctx, method=False, via_param=False):
         fns = self.crate.fns
 
         def one(cands, what):
@@ -2900,6 +3203,8 @@ class Gen:
             raise Refuse(f"function `{name}` is not defined in the translated files")
         if owner not in self.crate.adts:
             raise Refuse(f"`{owner}::{name}`: `{owner}` is not a type of the translated files")
+        if "gbase" in self.crate.adts[owner]:
+            return self.resolve_gfn(owner, name)
         dflt = getattr(ctx, "default_of", None)
         if dflt and owner == ctx.owner:          # inside a trait's default method: trait methods first
             c = fns.get((owner, dflt, name), [])
@@ -2909,12 +3214,21 @@ class Gen:
             if c:
                 return self.specialise(one(c, "trait default method"), owner, dflt)
         c = fns.get((owner, None, name), [])
+        ct = [x for (o, t, n), xs in fns.items() if o == owner and n == name and t is not None for x in xs]
+        cd = [(x, t) for (t, o) in self.crate.impls if o == owner for x in fns.get((None, t, name), [])
+              if not any(y.trait == t for y in ct)]
+        if c and (ct or cd) and (via_param or owner in self.param_images(ctx)):
+            # inside generic code a value of a parametric type only has the methods of its trait bounds, while at
+            # the concrete type an inherent method of the same name would win: not decided here
+            raise Refuse(f"`{owner}::{name}` is both an inherent and a trait method, called from generic code")
         if c:
             return one(c, "method")
-        c = [x for (o, t, n), xs in fns.items() if o == owner and n == name and t is not None for x in xs]
-        if c:
-            return one(c, "trait method")
-        raise Refuse(f"`{owner}::{name}` is not defined in the translated files")
+        if ct:
+            return one(ct, "trait method")
+        if cd:
+            x, t = one(cd, "trait default method")
+            return self.specialise(x, owner, t)
+        raise NotFound(f"`{owner}::{name}` is not defined in the translated files")
 
     def specialise(self, item, owner, trait):
         """the default method `item` of `trait`, read with Self = owner"""
@@ -2928,10 +3242,14 @@ class Gen:
     def lean_fn_name(self, item):
         parts = [item.mod]
         if item.owner:
-            parts.append(item.owner)
+            parts.append(lean_ident(item.owner))
         if item.trait:
             parts.append(item.trait)
-        parts.append(item.name)
+        a = self.crate.adts.get(item.owner) if item.owner and not item.trait else None
+        if a is not None and a["kind"] == "struct" and len(a["fields"]) > 1 and item.name in [f for f, _ in a["fields"]]:
+            parts.append(item.name + "_fn")      # `T.f` is the projection of the generated structure
+        else:
+            parts.append(item.name)
         return ".".join(parts)
 
     def fn_info(self, item):
@@ -2972,8 +3290,8 @@ class Gen:
         info.params = [(n, front.T.final(t)) for n, t in front.params]
         info.ret = rt
         info.lean = self.lean_fn_name(item)
-        rt_lean = self.lean_type(rt)
-        ptypes = [self.lean_type(t) for _, t in info.params]
+        rt_lean = qualify(self.lean_type(rt), item.idents, self.mods)
+        ptypes = [qualify(self.lean_type(t), item.idents, self.mods) for _, t in info.params]
         t1 = FnTrans(self, front, body, pure=False)
         code = t1.run()
         if not t1.impure:
@@ -3000,11 +3318,20 @@ FILES = [
     ("src/offset/fixed.rs", "offset_fixed"),
     ("src/naive/mod.rs", "naive"),
     ("src/naive/datetime/mod.rs", "naive_datetime"),
+    ("src/offset/utc.rs", "offset_utc"),
+    ("src/offset/mod.rs", "offset"),
+    ("src/datetime/mod.rs", "datetime"),
 ]
 
 # (file, impl type | None, function)                      an inherent / free function
 # (file, impl type, function, trait)                      a method of `impl trait for type`
 # (file, None, function, trait, Self type)                a trait default method read at the given Self
+# (file, "Base<Arg>", function)                           a function of a generic impl (`impl<Tz: TimeZone> DateTime<Tz>`,
+#                                                         `impl DateTime<Utc>`) read at the instantiation `Base<Arg>`
+DT_BOTH = ["timestamp", "timestamp_millis", "timestamp_micros", "timestamp_nanos_opt", "timestamp_subsec_millis",
+           "timestamp_subsec_micros", "timestamp_subsec_nanos", "naive_utc", "naive_local", "overflowing_naive_local",
+           "timezone", "to_utc", "fixed_offset", "checked_add_signed", "checked_sub_signed", "checked_add_months",
+           "checked_sub_months", "checked_add_days", "checked_sub_days", "with_time"]
 TARGETS = (
     [("src/naive/internals.rs", "YearFlags", f) for f in
      ["from_year_mod_400", "from_year", "ndays", "isoweek_delta", "nisoweeks"]]
@@ -3050,6 +3377,11 @@ TARGETS = (
        ["checked_add_signed", "checked_sub_signed", "checked_add_offset", "checked_sub_offset",
         "overflowing_add_offset", "overflowing_sub_offset", "signed_duration_since", "checked_add_months",
         "checked_sub_months", "checked_add_days", "checked_sub_days"]]
+    + [("src/naive/datetime/mod.rs", "NaiveDateTime", "and_utc")]
+    + [("src/datetime/mod.rs", "DateTime<Utc>", f) for f in
+       ["from_timestamp", "from_timestamp_millis", "from_timestamp_micros", "from_timestamp_nanos"]]
+    + [("src/datetime/mod.rs", inst, f) for inst in ["DateTime<Utc>", "DateTime<FixedOffset>"] for f in DT_BOTH]
+    + [("src/offset/mod.rs", None, "from_utc_datetime", "TimeZone", z) for z in ["Utc", "FixedOffset"]]
 )
 
 
@@ -3076,7 +3408,17 @@ def build(read):
             missing.append((label, problems[rel]))
             continue
         try:
-            if len(tgt) > 4:
+            if owner and "<" in owner:
+                base, args = owner[:-1].split("<")
+                if base not in crate.gadts:
+                    missing.append((label, f"generic struct `{base}` not found"))
+                    continue
+                try:
+                    ty = gen.instantiate_adt(base, [("adt", a.strip()) for a in args.split(",")])
+                    cands = [x for x in [gen.resolve_fn(ty[1], name, None)] if x.mod == mod]
+                except NotFound:
+                    cands = []
+            elif len(tgt) > 4:
                 cands = [x for x in crate.fns.get((None, tgt[3], name), []) if x.mod == mod]
                 cands = [gen.specialise(x, tgt[4], tgt[3]) for x in cands]
             elif len(tgt) == 4:
@@ -3098,8 +3440,8 @@ def build(read):
            "import Chrono.Prim", "import Chrono.GenRt", "import Chrono.Extracted.Tables", "",
            "namespace Chrono.Gen", "open Chrono", ""]
     for full in gen.structs:
-        a = crate.adts[full.split(".")[-1]]
-        out.append(f"/-- `struct {full.split('.')[-1]}` -/")
+        a = crate.adts[gen.struct_adt[full]]
+        out.append(f"/-- `struct {gen.struct_adt[full]}` -/")
         out.append(f"structure {full} where")
         for f, ft in a["lean_fields"]:
             out.append(f"  {f} : {ft}")
